@@ -130,6 +130,10 @@ def generate(rng, prop, tier, index):
               'flags': rng.choice([[], [], ['-q'], ['--debug']])}
         if rng.random() < 0.4:
             st['shuffle'] = rng.randrange(10**6)
+        if i and rng.random() < 0.25:
+            # before this step every source cart written so far is rewritten
+            # in place with other contents, its timestamps restored
+            st['rewrite_sources'] = True
         if rng.random() < 0.33:
             st['fail'] = {'kind': rng.choice(FAIL_KINDS),
                           'section': rng.choice(SECTIONS),
@@ -146,6 +150,16 @@ def generate(rng, prop, tier, index):
                  {'target': 'a', 'assign': dict(none, lua=[second]),
                   'flags': []}]
     extra = {}
+    if rng.random() < 0.05:
+        # the same source named by two builds, rewritten in between
+        none = {sec: ['none'] for sec in SECTIONS}
+        sec = rng.choice(SECTIONS[1:])
+        src = [rng.choice(['png', 'png', 'p8']), rng.randrange(N_SOURCES)]
+        steps = [{'target': 'a', 'assign': dict(none, **{sec: src}),
+                  'flags': []},
+                 {'target': rng.choice(sorted(outs)), 'flags': [],
+                  'assign': dict(none, **{sec: src}),
+                  'rewrite_sources': True}]
     if rng.random() < 0.06:
         # the same build applied to two OUTs through one arguments object
         # (only the output name is changed in between)
@@ -163,12 +177,19 @@ def generate(rng, prop, tier, index):
     if rng.random() < 0.35:
         extra.update({'argstyle': 'rel',
                       'cwd': rng.choice(['root', 'in', 'out'])})
+    elif rng.random() < 0.1:
+        # the working directory has been removed; all names are absolute
+        extra.update({'argstyle': 'abs', 'cwd': 'deleted'})
     if rng.random() < 0.3:
         extra['decoys'] = True
     if rng.random() < 0.15:
         extra['warmup'] = True
     return {**extra, 'engine': NAME, 'seed': rng.randint(1, 10**6), 'outs': outs,
             'luafile': core.enc_bytes(
+                # (sometimes the file's first bytes are glyph characters: the
+                # bytes of a UTF-8 byte order mark, in this or another order)
+                rng.choice([b'', b'', b'', b'\xbf\xbb_count=3\n',
+                            b'\xef\xbb\xbfz=1\n', b'\xbbq=2 ']) +
                 b'-- main\nmain_marker=%d\ns1="hello" s2=\'there\'\n'
                 b'function _draw() end\n'
                 % rng.randint(1, 99999)),
@@ -286,7 +307,7 @@ def norm_code(b):
     return b.rstrip(b'\n')
 
 
-def predict(prev, assign, srcs, outs_model, luafile):
+def predict(prev, assign, srcs, outs_model, luafile, srcs0=None):
     """StoreModel prediction of OUT after a successful build."""
     new = dict(prev) if prev is not None else empty_model()
     empty = empty_model()
@@ -307,8 +328,10 @@ def predict(prev, assign, srcs, outs_model, luafile):
             new[key] = sparse_cart()[key]
         elif a[0] == 'zero':
             new[key] = zero_cart()[key]
-        elif a[0] in ('p8', 'png', 'p8odd'):
+        elif a[0] in ('p8', 'png'):
             new[key] = srcs[a[1]][key]
+        elif a[0] == 'p8odd':
+            new[key] = (srcs0 or srcs)[a[1]][key]
         elif a[0] == 'p8alt':
             new[key] = alt_cart(a[1])[key]
         elif a[0] == 'out':
@@ -368,6 +391,7 @@ def execute(sc):
     outs = sc['outs']
     srcs = [refcodec.cart_from_spec(source_spec(i, sc['seed'] + i))
             for i in range(N_SOURCES)]
+    srcs0 = srcs
     luafile = core.dec_bytes(sc['luafile'])
     with world.World(env={'SND': 'drums'}) as w:
         w.mkdir('in')
@@ -380,11 +404,20 @@ def execute(sc):
                 written.add(rel)
 
         # how file arguments are spelled, and from where
-        cwd_rel = {'root': '', 'in': 'in', 'out': 'out'}[sc.get('cwd', 'root')]
-        os.chdir(w.p(cwd_rel))
+        if sc.get('cwd') == 'deleted':
+            cwd_rel = ''
+            w.mkdir('gone')
+            os.chdir(w.p('gone'))
+            os.rmdir(w.p('gone'))
+            core.bump(res['probes'], 'working-directory-deleted')
+        else:
+            cwd_rel = {'root': '', 'in': 'in',
+                       'out': 'out'}[sc.get('cwd', 'root')]
+            os.chdir(w.p(cwd_rel))
 
         def A(rel):
-            if sc.get('argstyle', 'abs') == 'abs':
+            if sc.get('argstyle', 'abs') == 'abs' or \
+                    sc.get('cwd') == 'deleted':
                 return w.p(rel)
             return os.path.relpath(w.p(rel), w.p(cwd_rel))
         if sc.get('decoys'):
@@ -436,6 +469,7 @@ def execute(sc):
             else:
                 outs_model[tag] = None
         changed_any = False
+        generation = 0
         shared_ns = None
         for si, st in enumerate(sc['steps']):
             tag = st['target']
@@ -445,6 +479,19 @@ def execute(sc):
             if st.get('reuse_args') and si > 0 and sc.get('shared_namespace'):
                 assign = sc['steps'][si - 1]['assign']   # same object reused
             fail = st.get('fail')
+            if st.get('rewrite_sources') and si:
+                generation += 1
+                srcs = [refcodec.cart_from_spec(source_spec(
+                    i, sc['seed'] + i + 7919 * generation))
+                    for i in range(N_SOURCES)]
+                for fmt in ('p8', 'png'):
+                    for i in range(N_SOURCES):
+                        rel = _src_rel(fmt, i)
+                        if rel in written and os.path.isfile(w.p(rel)):
+                            w.put_keep_times(rel, refcodec.encode_any(
+                                rel, srcs[i]))
+                            core.bump(res['probes'],
+                                      'source-rewritten-with-old-timestamps')
             argv = list(st.get('flags') or []) + ['build', A(out_rel)]
             probe_rel = None
             write_plan = None
@@ -496,7 +543,7 @@ def execute(sc):
                     argv += ['--lua', A('in/incdir/art.p8')]
                 elif a[0] == 'p8odd':
                     need('in/$SND-%d.p8' % a[1], lambda i=a[1]:
-                         refcodec.encode_p8(srcs[i]))
+                         refcodec.encode_p8(srcs0[i]))
                     need('in/drums-%d.p8' % a[1], lambda:
                          refcodec.encode_p8(alt_cart(0)))
                     argv += ['--' + sec, A('in/$SND-%d.p8' % a[1])]
@@ -693,7 +740,8 @@ def execute(sc):
                                 w.err.getvalue()[-200:]) if not exc else ''),
                         si)
                 else:
-                    model = predict(prev, assign, srcs, outs_model, luafile)
+                    model = predict(prev, assign, srcs, outs_model, luafile,
+                                    srcs0)
                     try:
                         got = refcodec.decode_any(out_rel, after[2] or b'')
                     except refcodec.RefCodecError as e:
